@@ -1,4 +1,5 @@
 import Model.Resolver
+import Model.ResolverCode
 import Proofs.Resolver
 import Proofs.ResolverStep
 import Proofs.ResolverRun
@@ -6,6 +7,10 @@ import Proofs.ResolverNx
 import Proofs.ResolverTrace
 import Proofs.ResolverClass
 import Proofs.ResolverCache
+import Proofs.ResolverSpec
+import Proofs.ResolverEquiv
+import Proofs.ResolverNoNs
+import Proofs.ResolverNxEvidence
 /-!
 # C16 — stub resolution reaches the documented outcome under every fault sequence
 
@@ -294,6 +299,51 @@ theorem result_classification (env : Env) (cache : Cache) (script : List ScriptS
   unfold loopResult
   simpa using h
 
+/-- "exactly the documented result", strongest form: the result is a *total function of the script*.  `spec`
+(`Proofs/ResolverSpec.lean`) is written independently of the state machine — candidate after candidate, round after
+round, server by server, with the documented fall-backs and no state flags — and for every configuration, request,
+clock, cache and script the model of `Resolver.resolve` returns exactly `spec`'s result and leaves exactly the clock,
+the cache and the unread script `spec` leaves (any back-off schedule with a positive first value ≤ cap, factor ≥ 1;
+both variants of the sleep). -/
+theorem resolve_eq_spec (cfg : Config) (bo : Backoff) (clip : Bool) (maxChain : Nat) (req : Request) (now : Nat)
+    (cache : Cache) (script : List ScriptStep)
+    (hpos : 0 < bo.init) (hcap : bo.init ≤ bo.cap) (hfac : 1 ≤ bo.factor) :
+    (resolve cfg bo clip maxChain req now cache script).2.1 = (spec cfg bo clip maxChain req now cache script).1 ∧
+    (resolve cfg bo clip maxChain req now cache script).2.2.now = (spec cfg bo clip maxChain req now cache script).2.now ∧
+    (resolve cfg bo clip maxChain req now cache script).2.2.cache = (spec cfg bo clip maxChain req now cache script).2.cache ∧
+    (resolve cfg bo clip maxChain req now cache script).2.2.script = (spec cfg bo clip maxChain req now cache script).2.script := by
+  unfold resolve spec
+  by_cases hmeta : (isMetatype req.rdtype || isMetaclass req.rdclass) = true
+  · simp [hmeta, initSt]
+  · simp only [hmeta, Bool.false_eq_true, if_false]
+    cases hg : getQnamesToTry cfg req.qname req.search with
+    | error e => simp [initSt]
+    | ok qnames =>
+      simp only
+      generalize henv : mkEnv cfg bo clip maxChain req now qnames = env
+      have hstart : env.start = now := by rw [← henv]; rfl
+      have hq : env.qnamesToTry = qnames := by rw [← henv]; rfl
+      have hb : env.bo = bo := by rw [← henv]; rfl
+      have hs : env.cfg.servers = cfg.servers := by rw [← henv]; rfl
+      have ht := (terminates_within_lifetime env cache script (by rw [hb]; exact hpos) (by rw [hb]; exact hcap)
+        (by rw [hb]; exact hfac)).1
+      have hsim := run_sim env (by rw [hb]; exact hpos) (by rw [hb]; exact hcap) (by rw [hb]; exact hfac)
+        (fuelBound env.bo env.cfg.servers.length env.qnamesToTry.length env.lifetime)
+        (initSt env.start cache script env.qnamesToTry) 0 ⟨by simp [initSt], by simp [initSt]⟩ (by simp [initSt])
+      unfold loopResult at ht
+      rcases hsim with hsim | ⟨h1, h2⟩
+      · exact absurd hsim ht
+      · simp only [SpecOf, initSt, worldOf, obsW, obsS, Prod.mk.injEq] at h1 h2
+        rw [hq, hstart, hb, hs] at h1 h2
+        exact ⟨h1.symm, h2.1.symm, h2.2.1.symm, h2.2.2.symm⟩
+
+/-- the same for the code as it now is (constants regenerated from the working tree) -/
+theorem codeResolve_eq_spec (cfg : Config) (req : Request) (now : Nat) (cache : Cache) (script : List ScriptStep) :
+    (codeResolve cfg req now cache script).2.1 =
+      (spec cfg codeBackoff ConstsC16.clipSleep ConstsC16.maxChain req now cache script).1 :=
+  (resolve_eq_spec cfg codeBackoff ConstsC16.clipSleep ConstsC16.maxChain req now cache script
+    backoff_wellformed.1 backoff_wellformed.2.1 backoff_wellformed.2.2).1
+
 /-- "the first acceptable answer": as soon as a query's outcome is a NOERROR response that survives validation,
 `query_result` ends the resolution with that answer (or `NoAnswer`); it never goes on to another server. -/
 theorem first_acceptable_answer_ends (env : Env) (st : St) (ns : Server) (out : Outcome) (a : Answer)
@@ -321,6 +371,30 @@ theorem nxdomain_only_if_all (env : Env) (cache : Cache) (script : List ScriptSt
   rcases hp with hp | hp
   · unfold loopResult at h; rw [h] at hp; cases hp
   · exact hp qs rs h
+
+/-- "NXDOMAIN only if every candidate got NXDOMAIN", traced to its sources: when the loop raises NXDOMAIN, for *every*
+candidate name either some query of this resolution for that name (up to ASCII case) was answered with an NXDOMAIN
+response that survives validation, or the cache *the resolution started with* holds an NXDOMAIN entry under
+`(name, ANY, class)` — entries put during the resolution are themselves traced to such a response. -/
+theorem nxdomain_evidence_traced (env : Env) (cache : Cache) (script : List ScriptStep) (qs rs : List Name)
+    (h : (loopResult env cache script).2.1 = .nxdomain qs rs) :
+    ∀ q ∈ env.qnamesToTry, Evid env cache (loopResult env cache script).1 q := by
+  have hall := (nxdomain_only_if_all env cache script qs rs h).2
+  have hp := run_post' env (InvE env cache) (fun evs r _ => PostE env cache evs r)
+    (fun pre st evs st' hi hs => (step_evid env cache pre st hi).1 evs st' hs)
+    (fun pre st evs r st' hi hs => (step_evid env cache pre st hi).2 evs r st' hs)
+    (fuelBound env.bo env.cfg.servers.length env.qnamesToTry.length env.lifetime)
+    (initSt env.start cache script env.qnamesToTry) []
+    ⟨by simp [initSt], fun n t a h1 _ => Or.inl h1⟩
+  unfold loopResult at h hall ⊢
+  rcases hp with hp | hp
+  · rw [h] at hp; cases hp
+  · simp only [List.nil_append] at hp
+    intro q hq
+    have hc := hall q hq
+    unfold covered at hc
+    obtain ⟨m, hm, hmq⟩ := List.any_eq_true.mp hc
+    exact Evid_sameName (hp qs rs h m hm) hmq
 
 /-- `query_result` records NXDOMAIN evidence only for a response with rcode NXDOMAIN that survives `Answer()`
 validation, and then for the current candidate. -/
@@ -353,6 +427,41 @@ theorem broken_never_reasked (env : Env) (cache : Cache) (script : List ScriptSt
   unfold loopResult at hev
   rw [hev] at hm
   exact mon_broken_not_reasked hm hb hmid
+
+/-- "all-nameservers-failed": `NoNameservers` is raised *exactly when* every configured nameserver has proved broken
+for the candidate name in progress.  `brokenAfter env [] evs` is the list of servers with a `provesBroken` outcome since
+the last candidate was started (`mem_brokenAfter` spells that out); over distinct, at least one, nameservers the result
+is `NoNameservers` iff that list covers the configuration. -/
+theorem no_nameservers_iff_all_broken (env : Env) (cache : Cache) (script : List ScriptStep)
+    (hnodup : env.cfg.servers.Nodup)
+    (hpos : 0 < env.bo.init) (hcap : env.bo.init ≤ env.bo.cap) (hfac : 1 ≤ env.bo.factor) :
+    ((loopResult env cache script).2.1 = .noNameservers →
+      ∀ s ∈ env.cfg.servers, ∃ pre q tcp t out post,
+        (loopResult env cache script).1 = pre ++ .query q s tcp t out :: post ∧
+        provesBroken env q tcp out = true ∧ ∀ e ∈ post, isCandidate e = false) ∧
+    (env.cfg.servers ≠ [] → (∀ s ∈ env.cfg.servers, s ∈ brokenAfter env [] (loopResult env cache script).1) →
+      (loopResult env cache script).2.1 = .noNameservers) := by
+  have ht := (terminates_within_lifetime env cache script hpos hcap hfac).1
+  have hp := run_post' env (InvNoNs env) (fun evs r _ => PostNoNs env evs r)
+    (fun pre st evs st' hi hs => (step_noNs env hnodup pre st hi).1 evs st' hs)
+    (fun pre st evs r st' hi hs => (step_noNs env hnodup pre st hi).2 evs r st' hs)
+    (fuelBound env.bo env.cfg.servers.length env.qnamesToTry.length env.lifetime)
+    (initSt env.start cache script env.qnamesToTry) []
+    ⟨m0, by simp [monAll], by simp [Rel, initSt, m0], by
+      simp only [Cov, initSt, m0]
+      intro hne
+      cases hsv : env.cfg.servers with
+      | nil => exact absurd hsv hne
+      | cons s rest => exact ⟨s, by simp, by simp⟩⟩
+  unfold loopResult at ht ⊢
+  rcases hp with hp | hp
+  · exact absurd hp ht
+  · simp only [List.nil_append] at hp
+    refine ⟨?_, hp.2⟩
+    intro hr s hs
+    rcases mem_brokenAfter env _ [] s (hp.1 hr s hs) with ⟨h1, _⟩ | h
+    · cases h1
+    · exact h
 
 /-- "a truncated UDP reply is retried once over TCP on the same server": in the event list of any resolution, the
 event right after a UDP query that ended in `Truncated` — if the lifetime allows one — is a TCP query to the same
